@@ -1,5 +1,155 @@
 import CssVerif.Model.SerCost
-open CssVerif.Proto CssVerif.SerCost
+import CssVerif.Model.ParseAll
+import CssVerif.Gen.C04Margins
+/-!
+Driver for C01. One request per line:
+
+  visits K TREE                 -> `<n>`      serializer entries for a value tree (Model/SerCost)
+  pipe DOC TEXT ORACLE          -> JSON       the composed kernels on a text (Model/ParseAll): tokenizer, sheet
+                                              dispatcher, selector machine on every ruleset prelude, media engine on
+                                              every @media prelude; ORACLE answers for what stays opaque (property
+                                              values, bodies of the other at-rules, @namespace), as in Drv/C04
+  nsq DOC TEXT                  -> JSON list  keys of every statement starting at a NAMESPACE_SYM
+  selcall NS TOKS               -> `ok1|ok0|raised dom=0|1 n=<tokens>`     the selector machine on one prelude
+  mediacall TOKS                -> `ok1|ok0|unsupported dom=0|1 n=<tokens>` the media engine on one prelude
+
+DOC = `1|0` (parseComments); TEXT = hex code points; TOKS = `TYPE:hex,…` or `-`; NS = `-` | `pfx=uri&…`;
+ORACLE, KEY as in Drv/C04 (entries `v:` `a:` `n:`; `s:` / `m:` entries are ignored: the machines answer).
+-/
+open CssVerif.Proto CssVerif.SerCost CssVerif.Struct CssVerif.ParseAll
+
+def nameOfTT : TT → String
+  | .ident => "IDENT" | .function => "FUNCTION" | .char => "CHAR" | .s => "S" | .comment => "COMMENT"
+  | .eof => "EOF" | .atkeyword => "ATKEYWORD" | .string => "STRING" | .uri => "URI" | .invalid => "INVALID"
+  | .cdo => "CDO" | .cdc => "CDC" | .charsetSym => "CHARSET_SYM" | .importSym => "IMPORT_SYM"
+  | .namespaceSym => "NAMESPACE_SYM" | .pageSym => "PAGE_SYM" | .mediaSym => "MEDIA_SYM"
+  | .fontFaceSym => "FONT_FACE_SYM" | .variablesSym => "VARIABLES_SYM" | .other => "OTHER"
+
+/-- KEY of a token list -/
+def keyOf (l : List Tok) : String :=
+  match l with
+  | [] => "e"
+  | t :: ts =>
+    let rec contiguous (p : Nat) : List Tok → Bool
+      | [] => true
+      | x :: xs => x.pos == p + 1 && contiguous x.pos xs
+    if contiguous t.pos ts then
+      s!"{t.pos}-{(l.getLast?.map (·.pos)).getD t.pos}"
+    else "+".intercalate (l.map fun x => toString x.pos)
+
+def nsKey (ns : List (Cps × Cps)) : String :=
+  if ns.isEmpty then "-" else "&".intercalate (ns.map fun e => encCps e.1 ++ "=" ++ encCps e.2)
+
+/-- the oracle table: (query string, answer words) -/
+abbrev Table := List (String × List String)
+
+def decTable (w : String) : Option Table :=
+  if w == "-" then some []
+  else (w.splitOn ",").foldr (fun e acc =>
+    match acc with
+    | none => none
+    | some l =>
+      match e.splitOn ":" with
+      | ["v", k, b] => some ((s!"v:{k}", [b]) :: l)
+      | ["m", k, b] => some ((s!"m:{k}", [b]) :: l)
+      | ["s", ns, k, b] => some ((s!"s:{ns}:{k}", [b]) :: l)
+      | ["a", ty, im, k, b] => some ((s!"a:{ty}:{im}:{k}", [b]) :: l)
+      | ["n", k, "0"] => some ((s!"n:{k}", ["0"]) :: l)
+      | ["n", k, "1", p, u] => some ((s!"n:{k}", ["1", p, u]) :: l)
+      | _ => none) (some [])
+
+def lookupB (tb : Table) (q : String) : Bool :=
+  match tb.lookup q with
+  | some ["0"] => false
+  | _ => true
+
+def oracleOf (tb : Table) : Oracle where
+  valueOk l := lookupB tb s!"v:{keyOf l}"
+  selOk ns l := lookupB tb s!"s:{nsKey ns}:{keyOf l}"
+  mediaOk l := lookupB tb s!"m:{keyOf l}"
+  atOk t im l := lookupB tb s!"a:{nameOfTT t}:{if im then "1" else "0"}:{keyOf l}"
+  nsInfo l :=
+    match tb.lookup s!"n:{keyOf l}" with
+    | some ["1", p, u] => match decCps p, decCps u with
+      | some p, some u => some (p, u)
+      | _, _ => none
+    | _ => none
+
+def q (s : String) : String := "\"" ++ s ++ "\""
+
+def optPos : Option Tok → String
+  | none => "null"
+  | some t => toString t.pos
+
+def jItem : Item → String
+  | .decl d => "{\"k\":\"decl\",\"name\":" ++ toString d.name.pos ++ ",\"value\":" ++ q (keyOf d.value)
+      ++ ",\"prio\":" ++ optPos d.prio ++ "}"
+  | .unknown l => "{\"k\":\"unknown\",\"toks\":" ++ q (keyOf l) ++ "}"
+  | .comment t => "{\"k\":\"comment\",\"pos\":" ++ toString t.pos ++ "}"
+  | .dropped l => "{\"k\":\"dropped\",\"toks\":" ++ q (keyOf l) ++ "}"
+
+def jList (l : List String) : String := "[" ++ ",".intercalate l ++ "]"
+
+def kindName : Kind → String
+  | .comment => "comment" | .charset => "charset" | .import_ => "import" | .namespace_ => "namespace"
+  | .variables => "variables" | .fontface => "fontface" | .page => "page" | .margin => "margin"
+  | .media => "media" | .style => "style" | .unknown => "unknown"
+
+mutual
+def jRule : Rule → String
+  | .comment t => "{\"k\":\"comment\",\"pos\":" ++ toString t.pos ++ "}"
+  | .at_ k l => "{\"k\":" ++ q (kindName k) ++ ",\"toks\":" ++ q (keyOf l) ++ "}"
+  | .ns p u l => "{\"k\":\"namespace\",\"toks\":" ++ q (keyOf l) ++ ",\"pfx\":" ++ q (encCps p)
+      ++ ",\"uri\":" ++ q (encCps u) ++ "}"
+  | .unknown l => "{\"k\":\"unknown\",\"toks\":" ++ q (keyOf l) ++ "}"
+  | .style ns sel items => "{\"k\":\"style\",\"ns\":" ++ q (nsKey ns) ++ ",\"sel\":" ++ q (keyOf sel) ++ ",\"items\":"
+      ++ jList (items.map jItem) ++ "}"
+  | .media none _ => "{\"k\":\"media\",\"stub\":true}"
+  | .media (some (mq, name)) rules => "{\"k\":\"media\",\"mq\":" ++ q (keyOf mq) ++ ",\"name\":" ++ optPos name
+      ++ ",\"rules\":[" ++ jRules rules ++ "]}"
+def jRules : List Rule → String
+  | [] => ""
+  | [r] => jRule r
+  | r :: rs => jRule r ++ "," ++ jRules rs
+end
+
+/-- which selector queries a rule list shows (the harness needs the namespace context of each) -/
+def jNs (ns : List (Cps × Cps)) : String := q (nsKey ns)
+
+/-- all statements that start at a NAMESPACE_SYM token, wherever it stands (a superset of the `nsInfo`
+queries the sheet dispatcher can make: the sheet-level list is consumed left to right) -/
+def nsQueries : List Tok → List String
+  | [] => []
+  | t :: ts =>
+    (if t.typ = .namespaceSym then [q (keyOf (upto .default (some t) ts).1)] else []) ++ nsQueries ts
+
+
+def decNs (w : String) : Option (List (Cps × Cps)) :=
+  if w == "-" then some []
+  else (w.splitOn "&").foldr (fun e acc =>
+    match acc, e.splitOn "=" with
+    | some l, [p, u] => match decCps p, decCps u with
+      | some p, some u => some ((p, u) :: l)
+      | _, _ => none
+    | _, _ => none) (some [])
+
+/-- `TYPE:hex` pairs -/
+def decPairs (w : String) : Option (List (String × Cps)) :=
+  if w == "-" then some []
+  else (w.splitOn ",").foldr (fun e acc =>
+    match acc, e.splitOn ":" with
+    | some l, [ty, v] => match decCps v with
+      | some v => some ((ty, v) :: l)
+      | none => none
+    | _, _ => none) (some [])
+
+def outcomeName : Outcome → String
+  | .ok true => "ok1" | .ok false => "ok0" | .raised => "raised" | .unsupported => "unsupported"
+
+def stopName : CssVerif.Tok.Stop → String
+  | .done _ _ => "done" | .stuck _ => "stuck" | .raised _ => "raised" | .noFuel _ => "noFuel"
+
+def itemWire (it : CssVerif.Tok.Item) : String := it.typ ++ ":" ++ encCps it.value
 
 def handle (line : String) : String :=
   match words line with
@@ -7,6 +157,39 @@ def handle (line : String) : String :=
     match k.toNat?, parseV t.toList (t.length + 1) with
     | some k, some (v, []) => toString (visits k v)
     | _, _ => "bad-op"
+  | ["pipe", doc, text, tb] =>
+    match decCps text, decTable tb with
+    | some text, some tb =>
+      if doc != "0" && doc != "1" then "bad-op" else
+      let doC := doc == "1"
+      let r := CssVerif.Tok.tokenize text true doC
+      let items := stream text doC
+      let ts := structToks items
+      if !tokWF ts then "out-of-domain" else
+      let st := sheetLoop (kernelOracle items (oracleOf tb)) CssVerif.Gen.C04.margins {} ts
+      "{\"stop\":" ++ q (stopName r.stop) ++ ",\"iterations\":" ++ toString r.items.length
+        ++ ",\"toks\":" ++ q (",".intercalate (items.map itemWire))
+        ++ ",\"rules\":[" ++ jRules (cleanNamespaces st.rules) ++ "],\"expected\":" ++ toString st.expected
+        ++ ",\"ns\":" ++ q (nsKey st.nsmap) ++ "}"
+    | _, _ => "bad-op"
+  | ["nsq", doc, text] =>
+    match decCps text with
+    | some text =>
+      if doc != "0" && doc != "1" then "bad-op" else
+      jList (nsQueries (structToks (stream text (doc == "1"))))
+    | none => "bad-op"
+  | ["selcall", ns, ts] =>
+    match decNs ns, decPairs ts with
+    | some ns, some ps =>
+      let toks : List CssVerif.Sel.Tok := ps.map fun p => ⟨selTT p.1, p.2⟩
+      outcomeName (selRun ns toks) ++ " dom=" ++ (if toks.all selDom then "1" else "0") ++ " n=" ++ toString toks.length
+    | _, _ => "bad-op"
+  | ["mediacall", ts] =>
+    match decPairs ts with
+    | some ps =>
+      let toks : List CssVerif.Media.Tok := ps.map fun p => { typ := mediaTT p.1, val := p.2 }
+      outcomeName (mediaRun toks) ++ " dom=" ++ (if toks.all mediaDom then "1" else "0") ++ " n=" ++ toString toks.length
+    | none => "bad-op"
   | _ => "bad-op"
 
 def main : IO Unit := serve handle
